@@ -19,7 +19,8 @@
     `.fixed`   the repaired code (commit "fix: retract/1 removes the clause it unified with"):
                look the snapshot clause up in the current procedure by identity (position
                `i - deleted` is only a hint), skip it when it is gone
-  The correspondence stream c09.hist ties `.fixed` to the code.  (`.pinned` looks the procedure
+  Both variants read stored clauses through a renamed copy (the repair of D10, which is C10's
+  subject).  The correspondence stream c09.hist ties `.fixed` to the code.  (`.pinned` looks the procedure
   up by indicator where the pinned Go code holds the `*userDefined`; the two differ only after
   an abolish/1 of the predicate being retracted from, which the witnesses do not use.)
 
@@ -353,13 +354,18 @@ def indexOf (cs : List Stored) (c : Stored) (hint : Int) : Int :=
     | some i => i
     | none => -1
 
-/-- the alternatives of a retract: unify the pattern with `rulify(c.raw)` (NOT renamed, as in
-    Go), then delete.  Returns the answer = the instantiated pattern. -/
+/-- the alternatives of a retract: the stored clause is read through a copy renamed apart
+    (`renamedCopy(c.raw, nil, nil)` — the variables of a stored clause are its own), the pattern is
+    unified with `rulify` of it, then the clause is deleted.  Returns the answer = the
+    instantiated pattern.  (Go renames all snapshot clauses when the retract starts, the model when
+    a clause is tried; which fresh variables are used is not observable.) -/
 def nextRetract (v : Variant) (st : State) (h : Nat) (pat : Term) (pi : PI) :
     List Stored → Nat → Nat → State × Out
   | [], i, d => ({ st with iters := st.iters.set h (.retract pat pi [] i d) }, .no)
   | c :: rest, i, d =>
-    match unify fuelU [] (rulify pat) (rulify c.raw) with
+    let raw := shift st.nextVar c.raw
+    let st := { st with nextVar := st.nextVar + maxVar c.raw }
+    match unify fuelU [] (rulify pat) (rulify raw) with
     | none => nextRetract v st h pat pi rest (i + 1) d
     | some σ =>
       match st.procs.get pi with
